@@ -8,15 +8,17 @@
    start tag the lexer reports occurs in the text, the root of the tree is the first start
    tag, a tree read as a message has a registered tag, the buffer looks for exactly those) -
    so for the concrete parser the framing theorem needs only (i).  (i) is decidable
-   (spelling_is_decidable) and evaluated on every generated spelling, and it is PROVED of
-   the text to_string writes for every constructible, printable message
-   (printed_message_is_a_spelling, Buffer/Spelling.v: the XML print-then-parse identity,
-   the message round trip, and prefix-freeness - once the root element has closed the
-   lexer accepts blanks only, and the text ends with '>').  The two theorems at the end
-   (every_stream_of_written_messages_is_read_back, ..._promptly) therefore assume nothing
-   about the parser: they speak of the buffer with the concrete parser and the live tags,
-   every list of constructible messages written by to_string, every cut into pieces; the
-   one hypothesis left is that each message fits the threshold (see K1). *)
+   (spelling_is_decidable) and it is PROVED (Buffer/Spelling.v) of EVERY text the concrete parser
+   accepts as a message, however it is spelled, provided it begins with the opener of a registered
+   tag and ends with '>' (accepted_text_is_a_spelling): no proper prefix of such a text is a complete
+   document - once the root element has closed the lexer accepts blanks only, and the text ends
+   with '>' -, and a complete document never ends in two '>' (the step that completes it leaves a
+   mode in which a tag is being closed, and '>' never leads into such a mode).  The canonical text
+   to_string writes is an instance (printed_message_is_a_spelling, with the XML print-then-parse
+   identity and the message round trip).  The theorems at the end therefore assume nothing about
+   the parser: any_accepted_stream_is_framed(_promptly) for streams of any accepted spellings and
+   any junk free of openers, every_stream_of_written_messages_is_read_back(_promptly) for what the
+   library itself writes; the one hypothesis left is that each message fits the threshold (see K1). *)
 From Coq Require Import List NArith Bool Arith.
 Import ListNotations.
 From Indi Require Import Base.Sx Buffer.Model Buffer.Props Buffer.Junk Buffer.Framing Buffer.Run Buffer.Concrete Buffer.Spelling
@@ -112,6 +114,36 @@ Theorem written_messages_are_delivered_promptly : forall thr ms pieces u,
 Proof. exact Buffer.Spelling.written_messages_are_delivered_promptly. Qed.
 Print Assumptions written_messages_are_delivered_promptly.
 
+(* (i) in general: ANY text the concrete parser reads as message M, beginning with the opener of a registered
+   tag, ending with '>' and within the threshold, is a spelling of M - whatever quotes, blanks, entity
+   forms or attribute order it uses *)
+Theorem accepted_text_is_a_spelling : forall thr (m : str) M tag rest,
+  concrete_parse m = PMsg M ->
+  In tag (rbuffer_tags live_registry) -> m = LT :: tag ++ rest ->
+  nth (length m - 1) m 0%N = GT ->
+  (forall t, thr = Some t -> length m <= t) ->
+  spelling msg concrete_parse (rbuffer_tags live_registry) thr M m.
+Proof. exact Buffer.Spelling.accepted_text_is_a_spelling. Qed.
+Print Assumptions accepted_text_is_a_spelling.
+
+(* C02 for the concrete parser and every spelling: a stream of accepted texts with any opener-free junk between
+   them, cut into ANY pieces - all calls terminate, exactly the messages are delivered, in order, each once ... *)
+Theorem any_accepted_stream_is_framed : forall thr pieces l,
+  stream_ok thr l -> concat pieces = flatten msg l ->
+  let '(outs, dfin) := feed msg concrete_parse (rbuffer_tags live_registry) thr [] pieces in
+  Forall (fun om => fst om = Done) outs /\ deliveries msg outs = msgs msg l.
+Proof. exact Buffer.Spelling.any_accepted_stream_is_framed. Qed.
+Print Assumptions any_accepted_stream_is_framed.
+
+(* ... and each no later than the call that follows the arrival of its last character *)
+Theorem any_accepted_stream_is_framed_promptly : forall thr pieces l u,
+  stream_ok thr l -> concat pieces ++ u = flatten msg l -> nothing_overdue msg l [] ->
+  let '(outs, dfin) := feed msg concrete_parse (rbuffer_tags live_registry) thr [] pieces in
+  exists l', wf msg concrete_parse (rbuffer_tags live_registry) thr l' /\ dfin ++ u = flatten msg l' /\
+             msgs msg l = deliveries msg outs ++ msgs msg l' /\ nothing_overdue msg l' dfin.
+Proof. exact Buffer.Spelling.any_accepted_stream_is_framed_promptly. Qed.
+Print Assumptions any_accepted_stream_is_framed_promptly.
+
 (* non-vacuity: a notice and a vector with children are sendable under the default threshold, and
    the buffer model, run on their bytes cut after every third byte, hands over both *)
 From Coq Require Import String.
@@ -125,3 +157,14 @@ Example c02_stream_nonvacuous :
                          (let fix cut (n : nat) (l : str) := match n with O => [] | S n' => match l with [] => [] | _ => firstn 3 l :: cut n' (skipn 3 l) end end
                           in cut 400 (to_string note ++ to_string vec)))) = [norm_msg note; norm_msg vec].
 Proof. split; vm_compute; reflexivity. Qed.
+
+(* non-vacuity of the general form: a spelling with single quotes, extra blanks, a character reference and an
+   explicit end tag is accepted, begins with its opener and ends with '>' *)
+Example c02_foreign_spelling_nonvacuous :
+  let m := s2l "<getProperties   version='1.7'  device='d&#233;v' ></getProperties >" in
+  exists M, accepted_spelling (Some 2048) M m.
+Proof.
+  cbv zeta. eexists. unfold accepted_spelling. split; [vm_compute; reflexivity|]. split; [|split; [vm_compute; reflexivity|]].
+  - exists (s2l "getProperties"), (s2l "   version='1.7'  device='d&#233;v' ></getProperties >"). split; [vm_compute; tauto|reflexivity].
+  - intros t [= <-]. vm_compute. repeat constructor.
+Qed.
